@@ -420,10 +420,15 @@ def main():
 
     for er in extra_results:
         for cls in er.get("known_classes", []):
-            for k in known:
-                if k.get("class") == cls:
-                    rest = " ".join(w for w in k["_line"][len("finding:"):].split() if not w.startswith("property="))
-                    known_lines.append("KNOWN-FINDING: property=%s %s" % (pid, rest))
+            listed = [k for k in known if k.get("class") == cls]
+            for k in listed:
+                rest = " ".join(w for w in k["_line"][len("finding:"):].split() if not w.startswith("property="))
+                known_lines.append("KNOWN-FINDING: property=%s %s" % (pid, rest))
+            if not listed:
+                # a finding of a class KNOWN_FINDINGS.txt does not list for this property is a violation
+                violations.append((write_replay(pid, dict(property=pid, kind="extra",
+                                                          detail=dict(what="finding of class %s, not listed for %s" % (cls, pid),
+                                                                      coverage=er.get("coverage")))), ""))
     for er in extra_results:
         for v in er.get("violations", []):
             violations.append((write_replay(pid, dict(property=pid, kind="extra", detail=v)), v.get("suffix", "") if isinstance(v, dict) else ""))
